@@ -1080,6 +1080,16 @@ func genWrapName(r rng, seed uint64, id string) *sdl.Program {
 		p.Instances = append(p.Instances, &sdl.Instance{ID: fmt.Sprintf("c%d", len(p.Instances)), Type: x.Name, Alias: "sibling"})
 		h.Points = append(h.Points, &sdl.Point{Field: "F3", Kind: sdl.KPtrs, Target: x.Name, Sel: sdl.SelType, Optional: r.p(0.5)})
 	}
+	if !hasF2 && r.p(0.4) {
+		// a peer of the substituted component - same concrete type - asks for it by name (the
+		// component's own point of that kind names the component itself: left empty)
+		fp := &sdl.Point{Field: "FP", Kind: sdl.KIface, Iface: 0, Sel: sdl.SelName, Name: p.NameOf(xi), Optional: true}
+		if r.p(0.4) {
+			fp.Kind = sdl.KAny
+		}
+		x.Points = append(x.Points, fp)
+		p.Instances = append(p.Instances, &sdl.Instance{ID: fmt.Sprintf("c%d", len(p.Instances)), Type: x.Name, Alias: "peer"})
+	}
 	at := pick(r, []string{sdl.CbAfter, sdl.CbAfter, sdl.CbBefore, sdl.CbBeforeInst})
 	class := "plain"
 	if at == sdl.CbBeforeInst {
